@@ -682,6 +682,16 @@ class BuiltinMixin:
             return self.ok(st, SV(boolv(cond), 'bool'))
         return self.ok(st, self.py_bool(False))
 
+    def bi_object___new__(self, st, args, node):
+        """cls.__new__(cls) for a class of the class table that defines no __new__: a fresh instance, no __init__"""
+        (cv,) = self.one_pos(args, 1, '__new__')
+        if not isinstance(cv, ClassV) or cv.ci.external:
+            raise Unsupported('__new__ of a class that is not a constant of the class table', node)
+        st = st.copy()
+        obj = self.alloc(st, cv.ci)
+        self.init_class_defaults(st, obj, cv.ci)
+        return self.ok(st, SV(obj.term, 'ref', cv.ci, True))
+
     def bi_inspect_ismethod(self, st, args, node):
         (v,) = self.one_pos(args, 1, 'ismethod')
         if isinstance(v, BoundV):
